@@ -231,7 +231,7 @@ def _write_workspace(d, shards, features, extra_deps="", extra_prelude=""):
     if not os.path.exists(os.path.join(d, "Cargo.lock")):
         shutil.copy(os.path.join(vlib.REPO, "Cargo.lock"), os.path.join(d, "Cargo.lock"))
     feat = ", ".join('"%s"' % f for f in features)
-    dep = 'ts-rs = { path = "/repo/ts-rs", features = [%s] }\nserde = { version = "1", features = ["derive", "rc"] }\nserde_json = "1"\n%s' % (feat, extra_deps)
+    dep = 'ts-rs = { path = "' + vlib.REPO + '/ts-rs", features = [%s] }\nserde = { version = "1", features = ["derive", "rc"] }\nserde_json = "1"\n%s' % (feat, extra_deps)
     for i, units in enumerate(shards):
         sd = os.path.join(d, "shard%d" % i)
         os.makedirs(os.path.join(sd, "src"), exist_ok=True)
